@@ -174,13 +174,64 @@ def run_illformed(chk, scratch, rnd, tier):
     chk.count("illformed_programs_rejected_with_diagnostics", rejected)
 
 
+def run_combos(chk, scratch):
+    """grammar-combinatorial hostile programs (checks/c03_combos.py): well-formed constructs in places where the front end expects
+    another kind of construct; a fixed list, every case in its own directory; only totality is judged"""
+    from checks import c03_combos
+    cases = c03_combos.cases()
+    chunks = [cases[i::vlib.NCPU] for i in range(vlib.NCPU)]
+
+    def work(arg):
+        wi, chunk = arg
+        pr = Probe(scratch)
+        outs = []
+        for k, (name, files, main) in enumerate(chunk):
+            d = os.path.join(scratch, "combo%d_%d" % (wi, k))
+            mutants.materialize(d, files)
+            try:
+                r = pr.request({"op": "parse", "id": name, "file": os.path.join(d, main), "cpu_sec": 10})
+                outs.append((name, files, r, None))
+            except ProbeDied as e:
+                outs.append((name, files, None, e))
+        pr.close()
+        return outs
+
+    rejected = 0
+    for outs in vlib.pmap(work, [(i, c) for i, c in enumerate(chunks) if c]):
+        for name, files, r, died in outs:
+            chk.evaluations += 1
+            chk.distinct.add("combo:" + name)
+            fam = ":".join(name.split(":")[:2])
+            fl = dict(files)
+            if died is not None:
+                kind, frame = vlib.classify_death(died.stderr_tail)
+                if died.marker:
+                    kind = died.marker.split()[0]
+                if kind == "WALLCLOCK":
+                    chk.inconclusive += 1
+                    continue
+                fl["stderr.txt"] = died.stderr_tail
+                fl["graph.json"] = json.dumps(files, indent=1, ensure_ascii=False)
+                chk.violation({"kind": kind, "frame": frame, "combo": fam}, files=fl, text="worker died on combination " + name)
+                continue
+            if r.get("panic"):
+                fl["result.json"] = json.dumps(r, indent=1, ensure_ascii=False)
+                fl["graph.json"] = json.dumps(files, indent=1, ensure_ascii=False)
+                chk.violation({"kind": "panic", "frame": r.get("frame", ""), "panic": r["panic"][:160], "combo": fam}, files=fl, text="panic on combination " + name)
+                continue
+            if r.get("errors"):
+                rejected += 1
+    chk.count("combination_programs", len(cases))
+    chk.count("combination_programs_rejected_with_diagnostics", rejected)
+
+
 def run(tier):
     vlib.ensure_build(frontend_only=True)
     chk = Check(PID, tier)
     seed = chk.seed
     total, ngraphs = (24000, 150) if tier == "quick" else (600000, 2000)
     chk.rule = ("mutants: case i is derived from (repository .ddp corpus, VERIF_SEED, i) by 1-3 mutators (token/line/byte/structure level, import "
-                "statements, CRLF), <= 8 KiB; import graphs: fixed hostile catalogue + 48 generic-instantiation graphs (polymorphic recursion over 1-4 types, 4 module layouts) + seeded random graphs of 2-7 modules; statically ill-formed programs: every entry of C04's single-fault catalogue and its well-formed twin at a site (thorough: at every site). A case is distinct by the "
+                "statements, CRLF), <= 8 KiB; import graphs: fixed hostile catalogue + 48 generic-instantiation graphs (polymorphic recursion over 1-4 types, 4 module layouts) + seeded random graphs of 2-7 modules; statically ill-formed programs: every entry of C04's single-fault catalogue and its well-formed twin at a site (thorough: at every site); grammar-combinatorial programs (alias declarations for every kind of name, operator overloads of every operator with 0-4 parameters, variables named like types/functions, every statement kind as the single statement of every one-line if/loop form, selective imports of names whose types are not imported). A case is distinct by the "
                 "hash of its bytes (mutants) or its graph id; every case is non-trivial (it is parsed by the real front end). Oracle: worker returns "
                 "without panic/fatal error; CPU <= 5 s + 2 ms/byte; RSS <= 256 MiB + 64 KiB/byte; Go max stack 256 MiB.")
     chk.assumptions = ["inputs are at most 8 KiB; import graphs at most 7 modules", "a worker death that does not reproduce alone in a fresh worker is counted inconclusive"]
@@ -199,6 +250,7 @@ def run(tier):
                             "head": open(p, "rb").read()[:200].decode("utf-8", "replace")})
         run_graphs(chk, sc.path, random.Random(seed), ngraphs)
         run_illformed(chk, sc.path, random.Random("%d/C03/ill" % seed), tier)
+        run_combos(chk, sc.path)
     return chk.finish(min_events=1000)
 
 
